@@ -10,6 +10,7 @@ import (
 	"fmt"
 	"io"
 	"net"
+	"strings"
 	"time"
 
 	"verif/rt/vrt"
@@ -60,7 +61,9 @@ type Fault struct {
 	// a protocol error on a live connection), "short" (write transfers half
 	// the buffer, then fails),
 	// "peerclose" (the peer end is closed just before the operation),
-	// "localclose" (this end is closed just before the operation).
+	// "localclose" (this end is closed just before the operation),
+	// "werr" (write only: this and every later write fail, reads go on - the
+	// peer shut down its reading side).
 	Kind string
 }
 
@@ -102,8 +105,9 @@ type MemConn struct {
 	// OpLog records every completed Read/Write of this end.
 	OpLog []OpRec
 	// FaultAt is the index of the operation at which a fault was injected (-1: none).
-	FaultAt int
-	inWrite bool
+	FaultAt       int
+	inWrite       bool
+	str           string // String() override (ServerString)
 	local, remote addr
 }
 
@@ -261,6 +265,12 @@ func (c *MemConn) Write(p []byte) (int, error) {
 		c.rbroken = c.wbroken
 		return 0, c.wbroken
 	}
+	if f != nil && f.Kind == "werr" {
+		// the peer shut its reading side: writes fail from now on, reads go on
+		vrt.Yield()
+		c.wbroken = errors.New("vnet: injected write error (peer stopped reading)")
+		return 0, c.wbroken
+	}
 	vrt.Block(vrt.KIO, "write "+c.name, c, func() bool {
 		return c.Cap == 0 || len(c.wr.data) < c.Cap || c.closed || c.wr.rclosed || c.wbroken != nil
 	})
@@ -326,8 +336,13 @@ func (c *MemConn) RemoteAddr() Addr                   { return c.remote }
 func (c *MemConn) SetDeadline(t time.Time) error      { return nil }
 func (c *MemConn) SetReadDeadline(t time.Time) error  { return nil }
 func (c *MemConn) SetWriteDeadline(t time.Time) error { return nil }
-func (c *MemConn) String() string                     { return "mem://" + c.name }
-func (c *MemConn) Context() context.Context           { return context.TODO() }
+func (c *MemConn) String() string {
+	if c.str != "" {
+		return c.str
+	}
+	return "mem://" + c.name
+}
+func (c *MemConn) Context() context.Context { return context.TODO() }
 
 // ---------------------------------------------------------------------
 
@@ -347,6 +362,11 @@ var (
 	connSeq   int
 	// Established lists, per address, the client ends created by Dial.
 	Established = map[string][]*MemConn{}
+	// ServerString, when non-empty, is what String() of the server end of
+	// the next dialled connections returns (the textual identity of a
+	// transport is chosen by the peer for some transports: a unix socket
+	// name, a pipe).
+	ServerString string
 )
 
 func init() {
@@ -354,6 +374,7 @@ func init() {
 		listeners = map[string]*MemListener{}
 		Dials = map[string]int{}
 		Established = map[string][]*MemConn{}
+		ServerString = ""
 		openConns = 0
 		connSeq = 0
 		pairSeq = 0
@@ -414,6 +435,11 @@ func DialMem(network, address string) (*MemConn, error) {
 	connSeq++
 	cl, srv := NewPair(fmt.Sprintf("%s/c%d", address, connSeq), fmt.Sprintf("%s/s%d", address, connSeq))
 	openConns += 2
+	if i := strings.Index(ServerString, "://"); i > 0 {
+		// the identity the server reads from RemoteAddr() and String()
+		srv.str = ServerString
+		srv.remote = addr{ServerString[:i], ServerString[i+3:]}
+	}
 	l.queue = append(l.queue, srv)
 	Established[key] = append(Established[key], cl)
 	return cl, nil
